@@ -7,7 +7,7 @@ from ..context import Context
 from ..guards import guards_of
 from ..load import AnalysisError, FuncInfo, Names, chain, norm, own_nodes, parent
 from ..norm import UNKNOWN, Sym, conj_atoms, guard_atoms, peval
-from .common import calls_named, fkey, net_sites, trees, where
+from .common import calls_named, effective_body, fkey, net_sites, trees, where
 
 CONN_CLASSES = [("connection", "AsyncHTTPConnection", "_origin"), ("http11", "AsyncHTTP11Connection", "_origin"), ("http2", "AsyncHTTP2Connection", "_origin"),
                 ("http_proxy", "AsyncForwardHTTPConnection", "_remote_origin"), ("http_proxy", "AsyncTunnelHTTPConnection", "_remote_origin"),
@@ -68,7 +68,7 @@ def run(ctx: Context) -> None:
             rep.ob("C10.R1", fkey(tree, init, f"self.{field}"), st == [src], where(init), f"self.{field} <- {st}")
         for mod, cn in (("connection", "AsyncHTTPConnection"), ("http11", "AsyncHTTP11Connection"), ("http2", "AsyncHTTP2Connection")):
             f = N.func(mod, f"{cn}.handle_async_request")
-            first = next((s for s in f.node.body if not (isinstance(s, ast.Expr) and isinstance(s.value, ast.Constant))), None)
+            first = next(iter(effective_body(f.node.body)), None)
             ok = isinstance(first, ast.If) and norm(first.test) == "notself.can_handle_request(request.url.origin)" and any(isinstance(x, ast.Raise) for x in first.body)
             rep.ob("C10.R1", fkey(tree, f, "entry-gate"), ok, where(f, first), "request routine starts with the origin gate raising RuntimeError")
         # ---- R2
